@@ -978,3 +978,88 @@ def r_expstable(A, ctx, scope, rule="R-EXPSTABLE"):
     ctx.extra["prediction_methods"] = n
     ctx.extra["hand_written_exponentials"] = n_exp
     ctx.floor(rule, n, scope.get("floor", 3))
+
+
+def r_fitsets(A, ctx, scope, rule="R-FITSETS"):
+    """C12 / C11: what fit() reports is what the solver just returned"""
+    ctx.rule(rule, "fitted attributes are refreshed by every fit: in `_glm_fit` every path from `solver.solve(...)` to a "
+             "return assigns each fitted attribute (`model.coef_`, `intercept_`, ...) that the main path derives "
+             "from the solver's result - no early return ('warm start already optimal') keeps the attributes of "
+             "the previous fit, which were computed for the previous targets / label encoding / hyper-parameters")
+    m = A.prog.modules.get("skglm.estimators")
+    f = m.functions.get("_glm_fit") if m else None
+    if f is None:
+        raise AnalysisError("anchor _glm_fit missing")
+    cfg = cfg_of(f)
+    solve = [nd.id for nd in cfg.stmts() if nd.kind == "stmt" and nd.ast is not None and any(
+        isinstance(c, ast.Call) and isinstance(c.func, ast.Attribute) and c.func.attr == "solve" for c in ast.walk(nd.ast))]
+    if not solve:
+        raise AnalysisError("_glm_fit: solver.solve call missing")
+    s0 = solve[-1]
+    model = f.params[2] if len(f.params) > 2 else "model"
+    # fitted attributes assigned after solve, unconditionally w.r.t. the returns (dominating the exit
+    # or assigned on the path): attribute -> assignment nodes
+    sets = {}
+    for nd in cfg.stmts():
+        a = nd.ast
+        if nd.kind == "stmt" and isinstance(a, ast.Assign) and getattr(a, "lineno", 0) > cfg.nodes[s0].ast.lineno:
+            for t in a.targets:
+                for e in (t.elts if isinstance(t, ast.Tuple) else [t]):
+                    if isinstance(e, ast.Attribute) and isinstance(e.value, ast.Name) and e.value.id == model \
+                            and e.attr.endswith("_"):
+                        sets.setdefault(e.attr, []).append(nd.id)
+    n = 0
+    last_ret = max(cfg.returns, key=lambda r: cfg.nodes[r].ast.lineno) if cfg.returns else cfg.exit
+    for attr, nodes in sorted(sets.items()):
+        reach = _reach_avoiding(cfg, s0, set(nodes))
+        if last_ret in reach:
+            continue            # set on some paths only (dual_coef_ of the SVC branch): not a main-path attribute
+        n += 1
+        early = sorted(cfg.nodes[r].ast.lineno for r in cfg.returns if r in reach and r != last_ret)
+        ctx.ob(rule, f"{f.fq}::{attr}", not early,
+               what=(f"_glm_fit can return at line {early[0]} after solve() without assigning `{model}.{attr}`: the "
+                     "estimator keeps the value of the previous fit (other targets, label encoding or "
+                     "hyper-parameters) while the other fitted attributes are new") if early else "",
+               loc=loc(f, cfg.nodes[nodes[0]].ast))
+    # presence tests: a prediction-side method must not decide anything on whether an attribute exists
+    # that only one branch of the fit assigns (it survives a refit that takes the other branch)
+    all_sets = {}
+    for nd in cfg.stmts():
+        a = nd.ast
+        if nd.kind == "stmt" and isinstance(a, ast.Assign):
+            for t in a.targets:
+                for e in (t.elts if isinstance(t, ast.Tuple) else [t]):
+                    if isinstance(e, ast.Attribute) and isinstance(e.value, ast.Name) and e.value.id == model \
+                            and e.attr.endswith("_"):
+                        all_sets.setdefault(e.attr, []).append(nd.id)
+    partial = {attr for attr, nodes in all_sets.items() if cfg.exit in _reach_avoiding(cfg, cfg.entry, set(nodes), through_returns=True)}
+    for cls in m.classes.values():
+        for meth in cls.methods.values():
+            if meth.name in ("fit", "path", "__init__", "get_params", "set_params"):
+                continue
+            for c in ast.walk(meth.node):
+                if isinstance(c, ast.Call) and ast.unparse(c.func) in ("hasattr", "getattr") and len(c.args) >= 2 \
+                        and ast.unparse(c.args[0]) == "self" and isinstance(c.args[1], ast.Constant) \
+                        and isinstance(c.args[1].value, str) and c.args[1].value.endswith("_"):
+                    attr = c.args[1].value
+                    n += 1
+                    ctx.ob(rule, f"{meth.fq}::presence::{attr}", attr not in partial,
+                           what=f"{meth.qualname} tests whether `self.{attr}` exists, but _glm_fit assigns it on some "
+                                "paths only (one branch of the binary / multiclass split): after a refit that takes the "
+                                "other branch the attribute of the earlier fit is still there and the method answers "
+                                "for the earlier model (other number of classes)", loc=loc(meth, c))
+    ctx.floor(rule, n, scope.get("floor", 3))
+
+
+def _reach_avoiding(cfg, start, blocked, through_returns=False):
+    """nodes reachable from `start` without passing a node of `blocked`"""
+    seen, todo = set(), [start]
+    while todo:
+        x = todo.pop()
+        if x in seen or x in blocked:
+            continue
+        seen.add(x)
+        if x in cfg.raises or (x in cfg.returns and not through_returns):
+            continue
+        todo += cfg.succ[x]
+    return seen
